@@ -4,7 +4,7 @@
 (* the trace spec (Trace_MolAssign.tla, which applies them to observations of the real code).    *)
 (*                                                                                               *)
 (* A fragment is a record  [cell, contig, strand, site, start, end, umi, valid]                  *)
-(*   strand 0 = forward, 1 = reverse; umi = sequence of small integers; [start,end) = span.      *)
+(*   strand 0 = forward, 1 = reverse; umi = sequence of letters A=0 C=1 G=2 T=3 N=4; [start,end) = span *)
 (* F is the input sequence of fragments (index = fragment id); a group is a set / sequence of    *)
 (* indices into F.                                                                               *)
 EXTENDS Integers, Sequences, FiniteSets, Util
@@ -12,7 +12,13 @@ EXTENDS Integers, Sequences, FiniteSets, Util
 ---------------------------------------------------------------------------------------------------
 (* relations between two fragments *)
 
-UmiClose(hd, a, b) == a = b \/ (hd > 0 /\ Len(a) = Len(b) /\ Hamming(a, b) <= hd)
+(* UMI letters are small integers, NLetter = "N" (unknown base).  The code base counts a position as a     *)
+(* mismatch only when both letters are known (utils/sequtils.hamming_distance); with distance 0 the      *)
+(* UMIs have to be identical strings.  This is the most permissive reading of "within the allowed        *)
+(* Hamming distance" for UMIs containing N and the one used here.                                        *)
+NLetter == 4
+HammingN(a, b) == Cardinality({ i \in DOMAIN a : a[i] # b[i] /\ a[i] # NLetter /\ b[i] # NLetter })
+UmiClose(hd, a, b) == a = b \/ (hd > 0 /\ Len(a) = Len(b) /\ HammingN(a, b) <= hd)
 
 (* "same cut site within the assignment radius".  nla: the site hash is exact whatever the radius; *)
 (* chic: distance of the cut sites; plain fragments have no cut site: the code's documented      *)
@@ -32,7 +38,8 @@ Connected(S, R(_, _)) ==
     ELSE LET x0 == CHOOSE x \in S : TRUE
              G[k \in 0 .. Cardinality(S)] ==
                  IF k = 0 THEN {x0}
-                 ELSE G[k - 1] \cup { y \in S : \E x \in G[k - 1] : R(x, y) \/ R(y, x) }
+                 ELSE LET prev == G[k - 1]      \* bound once: TLC does not memoise recursive function calls
+                      IN prev \cup { y \in S \ prev : \E x \in prev : R(x, y) \/ R(y, x) }
          IN G[Cardinality(S)] = S
 
 ---------------------------------------------------------------------------------------------------
